@@ -648,7 +648,13 @@ class Interp:
         return m(n, env)
 
     def e_Constant(self, n, env):
-        return n.value
+        v = n.value
+        if type(v) is int and v >= 65536:
+            # chunk / buffer sizes: generalised to an arbitrary positive integer (one symbol per literal value).
+            # A proof for every K >= 1 covers the literal; z3's sequence solver cannot work with length bounds
+            # of this magnitude.  Code that relies on the actual magnitude becomes undecided, never unsound.
+            return self.vc.big_const(v)
+        return v
 
     def e_Name(self, n, env):
         v = env.lookup(n.id)
@@ -1130,6 +1136,8 @@ class Interp:
         raise Unsupported(f'attribute {name!r} of {obj!r}')
 
     def hasattr(self, obj, name):
+        if obj is None:
+            return name in ('__class__', '__doc__', '__eq__', '__hash__', '__bool__')
         try:
             self.getattr(obj, name)
             return True
